@@ -228,7 +228,7 @@ func (b *vfEventBody) Read(p []byte) (int, error) {
 }
 func (b *vfEventBody) Close() error { return nil }
 
-//vf:harness property=C02 nopanic reach=stream-sse,stream-chunked steps=8000000
+//vf:harness property=C02 nopanic reach=stream-sse,stream-chunked,stream-sse-close-delimited steps=8000000
 func vfH_C02_stream() {
 	// incremental delivery: what the origin has sent is with the client before the proxy waits for more body bytes
 	cfg := HTTPProxyConfig{}
@@ -246,6 +246,8 @@ func vfH_C02_stream() {
 	vfrt.Assume(e1[6] != e2[6]) // distinct events, so that each can be located on the wire
 	e1, e2 = append(e1, '\n', '\n'), append(e2, '\n', '\n')
 	body := &vfEventBody{parts: [][]byte{e1, e2}, observed: func() int { return conn.Out.Len() }}
+	// the origin delimits the stream by chunked coding or by closing its connection
+	originChunked := vfrt.Choice("origin-chunked", 2) == 1
 	rt.respond = func(req *http.Request, n int) (*http.Response, error) {
 		h := http.Header{}
 		if sse {
@@ -253,11 +255,20 @@ func vfH_C02_stream() {
 		} else {
 			h.Set("Content-Type", "application/octet-stream")
 		}
-		return &http.Response{StatusCode: 200, ProtoMajor: 1, ProtoMinor: 1, Header: h, Body: body, ContentLength: -1, TransferEncoding: []string{"chunked"}, Request: req}, nil
+		res := &http.Response{StatusCode: 200, ProtoMajor: 1, ProtoMinor: 1, Header: h, Body: body, ContentLength: -1, Request: req}
+		if originChunked {
+			res.TransferEncoding = []string{"chunked"}
+		} else {
+			res.Close = true
+		}
+		return res, nil
 	}
 	if sse {
 		vfrt.Reach("stream-sse")
-	} else {
+		if !originChunked {
+			vfrt.Reach("stream-sse-close-delimited")
+		}
+	} else if originChunked {
 		vfrt.Reach("stream-chunked")
 	}
 	martian.VfServeConn(hp.proxy, conn)
@@ -270,8 +281,11 @@ func vfH_C02_stream() {
 	p2 := bytes.Index(out, e2)
 	vfrt.Assert(p1 > 0 && p2 > p1, "stream/events-on-the-wire-in-order")
 	// when the proxy asked for the second part, the first event was already with the client; likewise for the end
-	vfrt.Assert(body.seenAt[1] >= p1+len(e1), "stream/first-event-delivered-before-waiting-for-more")
-	vfrt.Assert(body.seenAt[2] >= p2+len(e2), "stream/second-event-delivered-before-waiting-for-the-end")
+	// (stated for event streams and for chunked bodies; a close-delimited body of another type may be buffered)
+	if sse || originChunked {
+		vfrt.Assert(body.seenAt[1] >= p1+len(e1), "stream/first-event-delivered-before-waiting-for-more")
+		vfrt.Assert(body.seenAt[2] >= p2+len(e2), "stream/second-event-delivered-before-waiting-for-the-end")
+	}
 	res, err := http.ReadResponse(bufio.NewReader(bytes.NewReader(out)), &http.Request{Method: "GET"})
 	vfrt.Assert(err == nil, "stream/parses")
 	if err == nil {
